@@ -45,6 +45,28 @@ func VP_C19_afm_glyphlist() {
 		}
 	}
 	vpAssert("each-glyph-exactly-once", once)
+	// encoded glyphs in code order (first or last code of a glyph), then the rest alphabetically
+	code := func(name string, last bool) int {
+		c := 256
+		for i, e := range m.Encoding {
+			if e == name && e != ".notdef" {
+				if c == 256 || last {
+					c = i
+				}
+			}
+		}
+		return c
+	}
+	ordered := true
+	for i := 2; i < len(list); i++ {
+		x, y := list[i-1], list[i]
+		okFirst := code(x, false) < code(y, false) || (code(x, false) == code(y, false) && x < y)
+		okLast := code(x, true) < code(y, true) || (code(x, true) == code(y, true) && x < y)
+		if !okFirst && !okLast {
+			ordered = false
+		}
+	}
+	vpAssert("encoded-in-code-order-then-alphabetical", ordered)
 	vpCover("done")
 }
 
